@@ -184,7 +184,8 @@ theorem basepoint_facts :
 theorem covered :
     Gen.TblOps448.covered = ["lookupTable.Init", "lookupTable.SelectInto", "nafLookupTable5.Init",
       "nafLookupTable5.SelectInto", "nafLookupTable8.Init", "nafLookupTable8.SelectInto",
-      "basepointTable", "basepointNAFTable", "Point.ScalarMult", "Point.ScalarBaseMult"] := by
+      "basepointTable", "basepointNAFTable", "Point.ScalarMult", "Point.ScalarBaseMult",
+      "Point.VarTimeDoubleScalarBaseMult"] := by
   ptops_decide "C16TblOps.covered"
 
 end C16TblOps
